@@ -274,15 +274,36 @@ func runC06s(seed int64, tier string, sc *Script) map[string]any {
 		for step := 0; step < steps; step++ {
 			ops++
 			n := nodes[rng.Intn(len(nodes))]
-			switch r := rng.Intn(100); {
+			r := rng.Intn(100)
+			// every file-store history begins with one blob pushed under a first name, then the
+			// same bytes under a second name through a reader that breaks off: what the store
+			// says about the content afterwards is what it said before
+			scripted := kind != "mem" && !ignoreNoName && step < 2
+			if scripted {
+				for _, c := range nodes {
+					if !c.isMan && len(c.bytes) > 1 {
+						n = c
+						break
+					}
+				}
+				r = 0
+			}
+			switch {
 			case r < 40:
 				name := pickName(n)
 				// (for the empty blob there is no content a push must refuse: nothing needs to be
 				// read, and bytes beyond Size may be ignored by a size-limited store)
 				good := rng.Intn(10) < 7 || len(n.bytes) == 0
+				if scripted {
+					name, good = step, step == 0
+				}
 				var rd io.Reader = bytes.NewReader(n.bytes)
 				if !good {
-					switch rng.Intn(3) {
+					badKind := rng.Intn(3)
+					if scripted {
+						badKind = 2
+					}
+					switch badKind {
 					case 0: // same length, other bytes
 						b := append([]byte(nil), n.bytes...)
 						if len(b) == 0 {
